@@ -52,9 +52,12 @@ Conv(l, t) == LET Lin == Len(t.v[1]) Lout == ConvLout(l, Lin) K == Len(l.W[1][1]
 Linear(l, t) == T1([o \in 1..Len(l.W) |-> RAdd(Wt(l, l.b[o]), RSum([i \in 1..Len(t.v) |-> RMul(Wt(l, l.W[o][i]), t.v[i])]))])
 AvgPool(l, t) == LET Lout == Len(t.v[1]) \div l.size IN
     T2([c \in 1..Len(t.v) |-> [q \in 1..Lout |-> RDiv(RSum([j \in 1..l.size |-> t.v[c][(q - 1) * l.size + j]]), RInt(l.size))]])
-MaxPool(l, t) == LET Lout == Len(t.v[1]) \div l.size IN
+\* MaxPool1d(kernel = stride = size, padding = pad): padded positions never win (they are -infinity), windows do not overlap
+MaxPool(l, t) == LET Lin == Len(t.v[1]) Lout == (Lin + 2 * l.pad - l.size) \div l.size + 1 IN
     T2([c \in 1..Len(t.v) |-> [q \in 1..Lout |->
-        FoldLeft(RMax, t.v[c][(q - 1) * l.size + 1], [j \in 1..l.size |-> t.v[c][(q - 1) * l.size + j]])]])
+        LET ps == { p \in 1..Lin : p >= (q - 1) * l.size - l.pad + 1 /\ p <= (q - 1) * l.size - l.pad + l.size }
+            first == CHOOSE p \in ps : \A r \in ps : p <= r IN
+        FoldLeft(RMax, t.v[c][first], [j \in 1..Cardinality(ps) |-> t.v[c][first + j - 1]])]])
 Apply(l, t) == CASE l.k = "conv"    -> Conv(l, t)
                  [] l.k = "linear"  -> Linear(l, t)
                  [] l.k = "flatten" -> T1(Flat(t))
@@ -94,9 +97,11 @@ BwdAll(layers, k, AX, AR, m, delta) ==
 HasMaxPool(layers) == \E k \in 1..Len(layers) : layers[k].k = "maxpool"
 
 \* hypothetical projection for one reference: H[k][p] = SUM_c (e_k - ref)[c][p] * m[c][p]
+\* ref: A x L matrix of rationals (a reference need not be one-hot: all-zero, uniform and frequency references are common)
 Project(m, ref, A) ==
-    [k \in 1..A |-> [p \in 1..Len(ref) |->
-        RSum([c \in 1..A |-> RMul(RSub(IF c = k THEN ROne ELSE RZero, IF ref[p] = c - 1 THEN ROne ELSE RZero), m[c][p])])]]
+    [k \in 1..A |-> [p \in 1..Len(ref[1]) |->
+        RSum([c \in 1..A |-> RMul(RSub(IF c = k THEN ROne ELSE RZero, ref[c][p]), m[c][p])])]]
+RefT(rm) == T2([c \in 1..Len(rm) |-> [p \in 1..Len(rm[c]) |-> <<rm[c][p][1], rm[c][p][2]>>]])
 MeanOver(ts, A, Lx) == [k \in 1..A |-> [p \in 1..Lx |-> RDiv(RSum([r \in 1..Len(ts) |-> ts[r][k][p]]), RInt(Len(ts)))]]
 
 \* c = [id, A, x, refs, target, layers, hyp]
@@ -105,14 +110,14 @@ Eval(c) ==
         nl == Len(c.layers)
         fx == AX[nl + 1].v[c.target + 1]
         per == [r \in 1..Len(c.refs) |->
-                 LET AR == FwdAll(c.layers, 1, OneHot(c.refs[r], c.A))
+                 LET AR == FwdAll(c.layers, 1, RefT(c.refs[r]))
                      fr == AR[nl + 1].v[c.target + 1]
                      seed == T1([o \in 1..Len(AX[nl + 1].v) |-> IF o = c.target + 1 THEN ROne ELSE RZero])
                      b == IF HasMaxPool(c.layers) THEN [m |-> T2(<<>>), ok |-> TRUE]
                           ELSE BwdAll(c.layers, nl, AX, AR, seed, RSub(fx, fr))
                  IN [fr |-> fr, mult |-> b.m.v, ok |-> b.ok]]
         nomax == ~HasMaxPool(c.layers)
-        projs == [r \in 1..Len(c.refs) |-> Project(per[r].mult, c.refs[r], c.A)]
+        projs == [r \in 1..Len(c.refs) |-> Project(per[r].mult, RefT(c.refs[r]).v, c.A)]
         mean == MeanOver(projs, c.A, Len(c.x))
         attr == [k \in 1..c.A |-> [p \in 1..Len(c.x) |-> IF c.hyp \/ c.x[p] = k - 1 THEN mean[k][p] ELSE RZero]]
     IN [id |-> c.id, fx |-> fx, per |-> per, attr |-> IF nomax THEN attr ELSE <<>>]
